@@ -1,6 +1,6 @@
 (* C42 — property theorems only.  Each is closed by `exact <lemma>` and followed by Print Assumptions. *)
 From Coq Require Import List NArith Bool Arith.
-From Verif.C42 Require Import Model Spec Proofs ProofsApply ProofsFinal ProofsIds ProofsSpec ProofsPin ProofsMaglev ProofsSched ProofsOracle Witness.
+From Verif.C42 Require Import Model Spec Proofs ProofsApply ProofsFinal ProofsIds ProofsSpec ProofsPin ProofsMaglev ProofsSched ProofsOracle ModelMg ProofsMg Witness.
 Import ListNotations.
 Open Scope N_scope.
 
@@ -202,20 +202,25 @@ Theorem c42_maglev_desired_consistent : forall npips lut lutf us,
 Proof. exact desired_mg_consistent. Qed.
 Print Assumptions c42_maglev_desired_consistent.
 
-(* (b) the order  frontend deletions ; LUT updates ; frontend updates ; LUT deletions  (the repaired tree,
-   fixes/C42-maglev-lut-before-frontend-updates-deletions-after.patch) keeps it after EACH single write, for every
-   order inside the phases and every set of failing writes.  Partial: stated on the maglev view of the frontend map
-   (the four-phase model run_phases instantiated with the LUT map as second map), not woven into exec_apply; the
-   implementation is checked after every recorded write of all three maps by the oracle replay3_ok. *)
-Theorem c42_maglev_every_write_consistent_partial : forall npips lut lutf us fF fB fe mg tr d' err,
-  ukeys fe -> mg_consistent lut fe mg ->
-  run_phases fF fB (mgview lut (desired_fe npips us)) (desired_mg lut lutf us) (mgview lut fe, mg) tr = Some (d', err) ->
-  Forall (fun s => consistent (fst s) (snd s)) (states_after (mgview lut fe, mg) tr)
-  /\ consistent (fst d') (snd d')
-  /\ (err = false -> (forall k, lookup fkey_eqb (fst d') k = lookup fkey_eqb (mgview lut (desired_fe npips us)) k)
-                      /\ (forall k, lookup pair_eqb (snd d') k = lookup pair_eqb (desired_mg lut lutf us) k)).
-Proof. exact maglev_repaired_order. Qed.
-Print Assumptions c42_maglev_every_write_consistent_partial.
+(* (b) THE THREE-MAP MODEL (ModelMg.exec_apply3: six phases of single writes over frontend, backend and LUT map).
+   With the repaired order (frontend deletions; backend updates; LUT updates; frontend updates; LUT deletions; backend
+   deletions - fixes/C42-maglev-lut-before-frontend-updates-deletions-after.patch) EVERY state passed through by EVERY
+   history - one per single write to any of the three maps, any order inside the phases, any failing NAT-map writes,
+   restarts, any consistent-hash table lutf - is consistent and maglev-consistent. *)
+Theorem c42_maglev_every_write_consistent : forall cfg lut lutf ops sy d states sy' d',
+  inv3 lut d -> run_history3 cfg true lut lutf sy d ops = Some (states, sy', d') ->
+  Forall (inv3 lut) states /\ inv3 lut d'.
+Proof. exact history3_repaired. Qed.
+Print Assumptions c42_maglev_every_write_consistent.
+
+(* the pinned order is refuted in the same model: an accepted history (annotation removed from a maglev service)
+   passes through two states that are not maglev-consistent *)
+Theorem c42_maglev_pinned_order_model_refuted :
+  exists states sy d,
+    run_history3 (Config [3232235521] true) false 2 pw_lutf new_syncer (([], []), []) pw_ops = Some (states, sy, d)
+    /\ map (fun s => mg_consistentb 2 (fst (fst s)) (snd s)) states = [true; true; true; true; false; false; true].
+Proof. exact pinned_order_refuted. Qed.
+Print Assumptions c42_maglev_pinned_order_model_refuted.
 
 (* (c) the pinned order (bpfMaglevEps.ApplyAllChanges, i.e. LUT deletions AND updates, before the frontend updates)
    cannot guarantee it: when the annotation is removed (or the last ready endpoint goes, or the id changes) the first
